@@ -20,6 +20,8 @@ pub fn registry() -> Vec<Box<dyn Scenario>> {
         Box::new(Scan),
         Box::new(FilterWrite),
         Box::new(StatsTruth),
+        Box::new(ExitContract),
+        Box::new(Truthful),
     ]
 }
 
@@ -321,6 +323,19 @@ impl Scenario for Chaos {
                     b[7] = 0;
                 }
                 label = "random-bytes".to_string();
+                (b, None)
+            }
+            3 => {
+                // arbitrary headers + random 80-bit words laid out per the header's data format
+                let n = rng.range(1, 80) as usize;
+                let nl = rng.range(1, 5) as usize;
+                let mw = *rng.pick(&[3usize, 12, 60, 300]);
+                let sane = rng.chance(1, 2);
+                let mut b = gen_framed_words(&mut rng, n, mw, nl, 100, sane);
+                if rng.chance(1, 4) {
+                    corrupt::corrupt_bytes(&mut b, &mut rng);
+                }
+                label = "random-words".to_string();
                 (b, None)
             }
             1 | 2 => {
@@ -1092,5 +1107,283 @@ impl Scenario for StatsTruth {
             benign_io(&mut spec, &mut rng);
         }
         Trial::StatsTruth { spec, analysed, label }
+    }
+}
+
+// ------------------------------------------------------------------------------------------------
+// C16
+// ------------------------------------------------------------------------------------------------
+pub struct ExitContract;
+
+impl Scenario for ExitContract {
+    fn property(&self) -> &'static str {
+        "C16"
+    }
+    fn n_cases(&self, tier: Tier) -> u64 {
+        match tier {
+            Tier::Quick => 1_500,
+            Tier::Thorough => 60_000,
+        }
+    }
+    fn rule(&self) -> String {
+        "case = input class (clean conforming | k errors from 1..8 framing-preserving corruption faults | mid-stream \
+         fatal framing error at a random packet | non-ALICE bytes | missing file | empty input) x check mode x \
+         -E n (n in 1..255, or absent) x statistics file; the reference run has no display option, then the same \
+         input is run with -m, with -w <code list> (codes taken from the messages seen, prefixes of other codes such \
+         as 4/44/440, 9/99/991, 1/10, and absent codes) and with -e N for N around the true count; every run under \
+         its own seeded schedule (after a fatal, which errors were counted races with the validators). 1 case in 8 is \
+         an invalid option combination (check sanity its-stave, -p without stave filter / with a non-stave target, \
+         -E 0, -o without filter, -S without -D, input-stats file with a wrong extension / missing), passed through \
+         the real clap parser and validate_args. Oracle: documented exit-status table; Total Errors (report) == \
+         total_errors (file) == messages shown without display option; -m shows nothing and changes nothing else; \
+         -w shows exactly the messages carrying a listed code; -e N shows at most N; rejected command lines: non-zero \
+         status, empty stdout, no output or statistics file."
+            .into()
+    }
+    fn make(&self, seed: u64, case: u64, _tier: Tier) -> Trial {
+        let mut rng = Rng::new(seed);
+        if case % 8 == 7 {
+            return make_rejected(&mut rng);
+        }
+        let class_i = case % 7;
+        let mode_i = rng.usize_below(5);
+        let stave = mode_i == 4;
+        let mut cfg = GenCfg::swarm(&mut rng, stave);
+        cfg.n_links = rng.range(1, 6) as usize;
+        let mut st = gen_conforming(&cfg, &mut rng);
+        let class;
+        let mut input;
+        let mut missing = false;
+        match class_i {
+            0 | 1 => {
+                class = "clean";
+                input = st.bytes();
+            }
+            2 | 3 => {
+                class = "errors";
+                for _ in 0..rng.range(1, 8) {
+                    loop {
+                        let mut probe = st.clone();
+                        let f = corrupt::corrupt_stream(&mut probe, &mut rng);
+                        if f != "size_inconsistent" {
+                            st = probe;
+                            break;
+                        }
+                    }
+                }
+                input = st.bytes();
+            }
+            4 => {
+                class = "fatal-midstream";
+                for _ in 0..rng.below(3) {
+                    loop {
+                        let mut probe = st.clone();
+                        let f = corrupt::corrupt_stream(&mut probe, &mut rng);
+                        if f != "size_inconsistent" {
+                            st = probe;
+                            break;
+                        }
+                    }
+                }
+                if st.order.len() > 1 {
+                    let j = 1 + rng.usize_below(st.order.len() - 1);
+                    st.packet_mut(j).rdh.offset_next = *rng.pick(&[0u16, 1, 63, 10065, 20000, 0xFFFF]);
+                }
+                input = st.bytes();
+            }
+            5 => {
+                class = "non-alice";
+                input = vec![0u8; rng.range(8, 4000) as usize];
+                rng.fill(&mut input);
+                // make sure the first 8 bytes are not a sane RDH0
+                match rng.below(3) {
+                    0 => input[0] = *rng.pick(&[0u8, 1, 2, 101, 200, 255]),
+                    1 => input[1] = *rng.pick(&[0u8, 0x3F, 0x41, 0xFF]),
+                    _ => input[4] = 1 + rng.below(255) as u8,
+                }
+                if input[0] >= 3 && input[0] <= 100 && input[1] == 0x40 && input[4] == 0 {
+                    input[1] = 0x41;
+                }
+            }
+            _ => {
+                if rng.chance(1, 2) {
+                    class = "empty";
+                    input = Vec::new();
+                } else {
+                    class = "missing-file";
+                    input = st.bytes();
+                    missing = true;
+                }
+            }
+        }
+        let exit_code = if rng.chance(2, 3) { Some(rng.range(1, 255) as i32) } else { None };
+        let mut parts: Vec<String> = s(CHECK_MODES[mode_i]);
+        if let Some(n) = exit_code {
+            parts.extend(s(&["-E", &n.to_string()]));
+        }
+        let ext = if rng.chance(1, 2) { "json" } else { "toml" };
+        parts.extend(s(&["-S", "@STATS@", "-D", ext]));
+        let im = if missing { InputMode::File } else { pick_input_mode(&mut rng) };
+        let mk = |extra: &[String], rng: &mut Rng| -> ExecSpec {
+            let mut p = parts.clone();
+            p.extend(extra.iter().cloned());
+            let mut sp = specgen::spec(im.clone(), &p, input.clone());
+            if missing {
+                sp.argv[0] = "@IN@.does-not-exist".to_string();
+            }
+            sp.stats_ext = ext.to_string();
+            if rng.chance(4, 5) {
+                swarm_schedule(&mut sp, rng, 300 + st.total_packets() as u64 * 12);
+            }
+            sp
+        };
+        let mut specs = vec![mk(&[], &mut rng)];
+        let mut kinds = vec!["plain".to_string()];
+        specs.push(mk(&s(&["-m"]), &mut rng));
+        kinds.push("mute".into());
+        // code lists: prefixes of other codes, absent codes
+        let lists = ["4", "44", "440 441 442", "9", "99", "991 992", "1", "10", "11", "10 11", "70 71 72 73", "30 40 50 60", "100", "7", "74 75"];
+        for _ in 0..2 {
+            let l = *rng.pick(&lists);
+            let mut a = vec!["-w".to_string()];
+            a.extend(l.split_whitespace().map(|x| x.to_string()));
+            specs.push(mk(&a, &mut rng));
+            kinds.push(format!("codes:{l}"));
+        }
+        let cap = rng.range(1, 12);
+        specs.push(mk(&s(&["-e", &cap.to_string()]), &mut rng));
+        kinds.push(format!("cap:{cap}"));
+        let label = format!("{class} | {} | -E {}", CHECK_MODES[mode_i].join(" "), if exit_code.is_some() { "n" } else { "absent" });
+        Trial::ExitContract { specs, kinds, class: class.to_string(), exit_code, label }
+    }
+}
+
+fn make_rejected(rng: &mut Rng) -> Trial {
+    let cfg = GenCfg::swarm(rng, false);
+    let input = gen_conforming(&cfg, rng).bytes();
+    let combos: Vec<(&str, Vec<&str>)> = vec![
+        ("check sanity its-stave", vec!["check", "sanity", "its-stave"]),
+        ("-p without stave filter", vec!["check", "all", "its-stave", "-p", "100"]),
+        ("-p with target its", vec!["check", "all", "its", "-s", "L0_1", "-p", "100"]),
+        ("-p without target", vec!["check", "all", "-s", "L0_1", "-p", "100"]),
+        ("-p with view", vec!["view", "rdh", "-s", "L0_1", "-p", "100"]),
+        ("-E 0", vec!["check", "all", "-E", "0"]),
+        ("-o without filter", vec!["-o", "@OUT@"]),
+        ("-S without -D", vec!["check", "sanity", "-S", "@STATS@"]),
+        ("-D without -S", vec!["check", "sanity", "-D", "json"]),
+        ("two filters", vec!["check", "sanity", "-f", "1", "-F", "2"]),
+        ("input stats wrong extension", vec!["check", "sanity", "-i", "@INSTATS@"]),
+        ("input stats missing", vec!["check", "sanity", "-i", "@INSTATS@.nope.json"]),
+        ("unknown subcommand", vec!["check", "everything"]),
+        ("bad link value", vec!["check", "sanity", "-f", "300"]),
+    ];
+    let (name, args) = combos[rng.usize_below(combos.len())].clone();
+    let mut parts: Vec<String> = args.iter().map(|x| x.to_string()).collect();
+    // a valid -S / -o next to the invalid part, so that "no output written" is observable
+    if !parts.iter().any(|a| a == "-S" || a == "-D") && rng.chance(1, 2) {
+        parts.extend(s(&["-S", "@STATS@", "-D", "json"]));
+    }
+    let im = pick_input_mode(rng);
+    let mut spec = specgen::spec(im, &parts, input);
+    if name == "input stats wrong extension" {
+        spec.input_stats = Some("{}".to_string());
+        spec.input_stats_ext = "txt".to_string();
+    }
+    Trial::Rejected { spec, label: format!("rejected: {name}") }
+}
+
+// ------------------------------------------------------------------------------------------------
+// C07
+// ------------------------------------------------------------------------------------------------
+pub struct Truthful;
+
+impl Scenario for Truthful {
+    fn property(&self) -> &'static str {
+        "C07"
+    }
+    fn n_cases(&self, tier: Tier) -> u64 {
+        match tier {
+            Tier::Quick => 4_000,
+            Tier::Thorough => 200_000,
+        }
+    }
+    fn rule(&self) -> String {
+        "case = well-framed stream whose payload slot size matches the header's data format: (a) arbitrary header \
+         values + random 80-bit words (known and unknown IDs) in formats 0 and 2, (b) conforming multi-link streams \
+         hit by 1..6 layout-preserving corruption faults; x five check modes x filter (present / absent / none) x \
+         -m / statistics file x {file, pipe} x seeded schedules. Every message (stderr and statistics file) is \
+         checked: leading offset inside the input and equal to a walker RDH start (RDH messages) or word-slot start \
+         (all others); `[b0 .. b9]` dump == the 10 input bytes there; `current :` row fields == independent decoding \
+         of the RDH there; quoted frame end is a word start. Non-trivial: >= 1 message checked. Distinct: (input \
+         hash, trace hash). Probes count messages checked per kind."
+            .into()
+    }
+    fn make(&self, seed: u64, case: u64, _tier: Tier) -> Trial {
+        let mut rng = Rng::new(seed);
+        let mode_i = (case % 5) as usize;
+        let label_src;
+        let input = if case % 2 == 0 {
+            label_src = "random words";
+            let n = rng.range(1, 60) as usize;
+            let nl = rng.range(1, 5) as usize;
+            let mw = *rng.pick(&[3usize, 12, 60]);
+            let sane = rng.chance(1, 2);
+            gen_framed_words(&mut rng, n, mw, nl, 80, sane)
+        } else {
+            label_src = "corrupted conforming";
+            let cfg = GenCfg::swarm(&mut rng, mode_i == 4);
+            let mut st = gen_conforming(&cfg, &mut rng);
+            for _ in 0..rng.range(1, 6) {
+                loop {
+                    let mut probe = st.clone();
+                    let f = corrupt::corrupt_stream(&mut probe, &mut rng);
+                    if f != "size_inconsistent" && f != "rdh_bit_flip" && f != "rdh_field_extreme" {
+                        st = probe;
+                        break;
+                    }
+                    if f == "rdh_bit_flip" || f == "rdh_field_extreme" {
+                        // header corruption must keep framing and the data-format field intact
+                        let ok = probe.order.iter().all(|&(l, p)| {
+                            let pk = &probe.links[l].packets[p];
+                            let orig = &st.links[l].packets[p];
+                            pk.rdh.offset_next == orig.rdh.offset_next
+                                && pk.rdh.memory_size == orig.rdh.memory_size
+                                && pk.rdh.data_format == orig.rdh.data_format
+                        });
+                        if ok {
+                            st = probe;
+                            break;
+                        }
+                    }
+                }
+            }
+            st.bytes()
+        };
+        let f = filter_from_walk(&input, &mut rng);
+        let mut parts = s(CHECK_MODES[mode_i]);
+        parts.extend(f.args());
+        let mut ext = "json";
+        if rng.chance(1, 2) {
+            ext = if rng.chance(1, 2) { "json" } else { "toml" };
+            parts.extend(s(&["-S", "@STATS@", "-D", ext]));
+            if rng.chance(1, 2) {
+                parts.push("-m".into());
+            }
+        }
+        let im = pick_input_mode(&mut rng);
+        let mut spec = specgen::spec(im, &parts, input);
+        spec.stats_ext = ext.to_string();
+        if rng.chance(3, 4) {
+            swarm_schedule(&mut spec, &mut rng, 1000);
+        }
+        if rng.chance(1, 3) {
+            benign_io(&mut spec, &mut rng);
+        }
+        let label = format!(
+            "{label_src} | {} | {}",
+            CHECK_MODES[mode_i].join(" "),
+            if f == Filter::None { "no filter" } else { "filter" }
+        );
+        Trial::Truthful { spec, label }
     }
 }
